@@ -22,7 +22,7 @@ func eqU64s(a, b []uint64) bool {
 
 // wfBoard evaluates, on the real code's data, the hypothesis of the C02 theorems:
 // size 3..8, bitboards on the board, colours disjoint, walls/capstones on occupied squares and
-// disjoint, the stored groups are what FloodGroups yields for the road bitboards, reserve sums fit a byte.
+// disjoint, the stored groups are what FloodGroups yields for the road bitboards.
 func wfBoard(r tak.VerifRaw) bool {
 	if r.Size < 3 || r.Size > 8 {
 		return false
@@ -43,9 +43,6 @@ func wfBoard(r tak.VerifRaw) bool {
 	wg := bitboard.FloodGroups(&c, r.White&^r.Standing, nil)
 	bg := bitboard.FloodGroups(&c, r.Black&^r.Standing, nil)
 	if !eqU64s(wg, r.WG) || !eqU64s(bg, r.BG) {
-		return false
-	}
-	if int(r.WS)+int(r.WC) > 255 || int(r.BS)+int(r.BC) > 255 {
 		return false
 	}
 	return true
